@@ -41,7 +41,8 @@ Single(tw, st) == Sol(tw, st, 1)
 TaskList(phase) ==
     CASE Strategy = "towers" -> [i \in 1..NT |-> <<i, 0>>]                       \* step 0 = the whole series
       [] Strategy = "time"   -> [i \in 1..NS |-> <<phase, i>>]                   \* pool number `phase` serves tower `phase`
-      [] Strategy = "both"   -> [i \in 1..(NT * NS) |-> <<((i - 1) \div NS) + 1, ((i - 1) % NS) + 1>>]
+      [] Strategy \in {"both", "serial", "cli"}                                   \* tower-major list of (tower, step)
+                             -> [i \in 1..(NT * NS) |-> <<((i - 1) \div NS) + 1, ((i - 1) % NS) + 1>>]
 NPhases == IF Strategy = "time" THEN NT ELSE 1
 
 VARIABLES
@@ -69,7 +70,21 @@ Init == /\ vcfg \in [nt : 1..MaxNT, ns : 1..MaxNS, nw : 1..MaxNW, strat : Strate
         /\ vprog = [w \in Workers |-> 0] /\ vacc = [w \in Workers |-> << >>]
         /\ vout = << >> /\ vorder = << >> /\ vresults = << >> /\ vpcd = "submit"
 
-Submit ==   /\ vpcd = "submit"                                        \* a pool is created and all tasks are queued
+\* The serial drivers (run_bldfm_multitower / run_bldfm_timeseries: "serial") and the CLI loop (bldfm run: "cli")
+\* have no pool: the caller itself solves the tasks in list order - towers outer, steps inner - with ITS thread setting.
+Serial == Strategy \in {"serial", "cli"}
+SerialStart == /\ vpcd = "submit" /\ Serial
+               /\ vout' = [i \in 1..NTasks |-> << >>] /\ vorder' = << >> /\ vnext' = 1 /\ vpcd' = "serialrun"
+               /\ UNCHANGED <<vcfg, vphase, vbusy, vinit, vwthr, vprog, vacc, vresults>>
+SerialStep ==  /\ vpcd = "serialrun" /\ vnext <= NTasks
+               /\ LET tk == Tasks[vnext] IN
+                  vout' = [vout EXCEPT ![vnext] = <<tk[1], <<Sol(tk[1], tk[2], ParentThreads)>>>>]
+               /\ vorder' = Append(vorder, vnext) /\ vnext' = vnext + 1
+               /\ UNCHANGED <<vcfg, vphase, vbusy, vinit, vwthr, vprog, vacc, vresults, vpcd>>
+SerialDone ==  /\ vpcd = "serialrun" /\ vnext > NTasks /\ vpcd' = "assemble"
+               /\ UNCHANGED <<vcfg, vphase, vnext, vbusy, vinit, vwthr, vprog, vacc, vout, vorder, vresults>>
+
+Submit ==   /\ vpcd = "submit" /\ ~Serial                            \* a pool is created and all tasks are queued
             /\ vout' = [i \in 1..NTasks |-> << >>] /\ vorder' = << >> /\ vnext' = 1
             /\ vbusy' = [w \in Workers |-> 0] /\ vinit' = [w \in Workers |-> FALSE]
             /\ vwthr' = [w \in Workers |-> ParentThreads]
@@ -116,7 +131,8 @@ Assemble == /\ vpcd = "assemble"
             /\ vresults' =
                  CASE Strategy = "towers" -> [i \in 1..NT |-> <<vout[i][1], vout[i][2]>>]           \* {name: res for name, res in futures}
                    [] Strategy = "time"   -> Append(vresults, <<vphase, [s \in 1..NS |-> vout[s][2][1]]>>)   \* results[tower.name] = step_results
-                   [] Strategy = "both"   -> [i \in 1..NT |->
+                   [] Strategy = "cli"    -> [k \in 1..(NT * NS) |-> vout[k]]                          \* results.append(result)
+                   [] Strategy \in {"both", "serial"} -> [i \in 1..NT |->
                                                <<i, [s \in 1..NS |->
                                                        LET k == ((i - 1) * Stride) + s IN
                                                        IF k <= NT * NS THEN vout[k][2][1] ELSE <<0, 0, 0>>]>>]
@@ -124,14 +140,20 @@ Assemble == /\ vpcd = "assemble"
                ELSE vphase' = vphase /\ vpcd' = "done"
             /\ UNCHANGED <<vcfg, vnext, vbusy, vinit, vwthr, vprog, vacc, vout, vorder>>
 
-Next == Submit \/ (\E w \in Workers : Take(w) \/ WInit(w) \/ WSolve(w) \/ Finish(w)) \/ PoolDone \/ Assemble
+Next == SerialStart \/ SerialStep \/ SerialDone \/ Submit \/ (\E w \in Workers : Take(w) \/ WInit(w) \/ WSolve(w) \/ Finish(w)) \/ PoolDone \/ Assemble
 Spec == Init /\ [][Next]_dvars
 
 (******************************** properties ********************************)
 DoneD == vpcd = "done"
-KeysInConfigOrder == DoneD => (Len(vresults) = NT /\ \A i \in 1..NT : vresults[i][1] = i)
-OnePerStep == DoneD => \A i \in 1..NT : Len(vresults[i][2]) = NS
-EachIsSingle == DoneD => \A i \in 1..NT : \A s \in 1..NS : vresults[i][2][s] = Single(i, s)
+\* what entry (tower i, step s) must be: the single run - solved with one thread in a worker, with the caller's setting serially
+Expect(i, s) == Sol(i, s, IF Serial THEN ParentThreads ELSE 1)
+KeysInConfigOrder == DoneD =>
+    IF Strategy = "cli" THEN Len(vresults) = NT * NS /\ \A k \in 1..(NT * NS) : vresults[k][1] = ((k - 1) \div NS) + 1
+    ELSE Len(vresults) = NT /\ \A i \in 1..NT : vresults[i][1] = i
+OnePerStep == DoneD => \A i \in 1..Len(vresults) : Len(vresults[i][2]) = (IF Strategy = "cli" THEN 1 ELSE NS)
+EachIsSingle == DoneD =>
+    IF Strategy = "cli" THEN \A k \in 1..(NT * NS) : vresults[k][2][1] = Expect(((k - 1) \div NS) + 1, ((k - 1) % NS) + 1)
+    ELSE \A i \in 1..NT : \A s \in 1..NS : vresults[i][2][s] = Expect(i, s)
 \* every task is taken exactly once (no task lost or run twice) - on the positional list
 EveryTaskOnce == vpcd = "assemble" => (Len(vorder) = NTasks /\ \A i \in 1..NTasks : Cardinality({k \in 1..Len(vorder) : vorder[k] = i}) = 1)
 \* a worker never solves with an inherited thread setting
